@@ -222,6 +222,25 @@ func c02HTML(s *flScn) string {
 				mid = append(mid, "<b>"+w(it.N-1)+"</b>")
 				fmt.Fprintf(&b, `<p>%s <span style="%s">%s</span> %s</p>`, w(1), st, strings.Join(mid, " "), w(it.N))
 			}
+		case "side":
+			// asks for a page of a given side: a blank page is inserted when the next page is of the other side
+			st := [...]string{"break-before:right", "break-before:left", "break-before:verso"}[it.Opt%3]
+			fmt.Fprintf(&b, `<p style="%s">%s</p>`, st, words(" "))
+		case "pfl":
+			// a float INSIDE the paragraph (token a<i>q1), narrow or too wide for its line; options 2, 3: two stacked floats of
+			// different widths on the left and a tall inline-block on the first line, so that the line is laid out a second time
+			// further right once its height is known
+			fl := [...]string{"float:left;width:30%", "float:left;width:90%", "float:left;width:90%", "float:right;width:30%"}[it.Opt%4]
+			tall := ""
+			if it.Opt%4 >= 2 {
+				b.WriteString(`<div style="float:left;width:30%;height:15px"></div><div style="float:left;clear:left;width:60%;height:20px"></div>`)
+				tall = `<span style="display:inline-block;width:8px;height:20px"></span> `
+			}
+			var rest []string
+			for k := 2; k <= it.N; k++ {
+				rest = append(rest, w(k))
+			}
+			fmt.Fprintf(&b, `<p>%s %s<span style="%s">a%dq1</span> %s</p>`, w(1), tall, fl, i, strings.Join(rest, " "))
 		default:
 			b.WriteString("<p>unknownkind</p>")
 		}
@@ -238,11 +257,11 @@ func c02HTML(s *flScn) string {
 	return b.String()
 }
 
-var c02TokRe = regexp.MustCompile(`^a(\d+)([whfxr])(\d+)$`)
+var c02TokRe = regexp.MustCompile(`^a(\d+)([whfxrq])(\d+)$`)
 
 // words of a text: tokens may be glued to each other (adjacent inline boxes); whatever is not a token is kept as a word
 // of its own, so that it shows as unknown text
-var c02SplitRe = regexp.MustCompile(`a\d+[whfxr]\d+|[^\sa]+|a`)
+var c02SplitRe = regexp.MustCompile(`a\d+[whfxrq]\d+|[^\sa]+|a`)
 
 func c02Words(s string) []string { return c02SplitRe.FindAllString(s, -1) }
 
@@ -253,7 +272,7 @@ func c02Tok(word string) flTok {
 	}
 	it, _ := strconv.Atoi(m[1])
 	k, _ := strconv.Atoi(m[3])
-	return flTok{It: it, Role: strings.Index("whfxr", m[2]), K: k}
+	return flTok{It: it, Role: strings.Index("whfxrq", m[2]), K: k}
 }
 
 func c02Main(args []string) int {
@@ -284,6 +303,9 @@ func c02Main(args []string) int {
 		toks := make([][]flTok, len(pages))
 		for pi, p := range pages {
 			toks[pi] = []flTok{}
+			if p.PageType.Blank {
+				toks[pi] = append(toks[pi], flTok{It: 0, Role: 9, K: 0}) // the marker of a blank page
+			}
 			drv.Walk(p, func(bx boxes.Box, _ int) bool {
 				if tb, ok := bx.(*boxes.TextBox); ok {
 					for _, wd := range c02Words(tb.TextS()) {
